@@ -1939,10 +1939,15 @@ impl<'a> CompilerState<'a> {
                         local_variables.push(s);
                     }
                     self.in_scope_variables.push(map);
+                    // A definition that follows its prototype keeps the prototype's rank
+                    let order = match self.functions.get(&name) {
+                        Some(f) => f.order,
+                        None => self.functions.len(),
+                    };
                     self.functions.insert(
                         name.clone(),
                         Function {
-                            order: self.functions.len(),
+                            order,
                             inline,
                             bank,
                             code: None,
@@ -2087,9 +2092,13 @@ impl<'a> CompilerState<'a> {
                                 _ => unreachable!(),
                             }
                         }
-                        // Insert it into the global table
+                        // Insert it into the global table (a parameter already declared by a
+                        // prototype keeps its rank)
                         let var = Variable {
-                            order: self.variables.len(),
+                            order: match self.variables.get(&longname) {
+                                Some(v) => v.order,
+                                None => self.variables.len(),
+                            },
                             signed,
                             memory,
                             var_const,
